@@ -59,6 +59,19 @@ func C04(c *core.Ctx) {
 	seen := map[string]bool{}
 	for i := range js {
 		js[i] = kj.Lifecycle(rng, 18290, 2+rng.Intn(4), []int{0, 0, 1, 1, 2}[rng.Intn(5)], true)
+		if i%4 == 3 {
+			// the same journal stretched over centuries (a monotone map of its days): early days moved to
+			// about 1609, late days to about 2371 - the order of the days, hence the verdict, is unchanged
+			lo, hi := 18290+rng.Intn(3), 18291+rng.Intn(4)
+			for k := range js[i].Dirs {
+				switch z := js[i].Dirs[k].Z; {
+				case z < lo && i%8 == 3:
+					js[i].Dirs[k].Z = z - 150000
+				case z > hi:
+					js[i].Dirs[k].Z = z + 110000
+				}
+			}
+		}
 		cases[i] = js[i].Case(i+1, "check", nil)
 	}
 	dir := filepath.Join(c.Work, "c04")
